@@ -337,27 +337,3 @@ func vRunBoth(t testing.TB, model *vModel, prog []string) (impl, mod []string) {
 	return
 }
 
-func vFirstDiff(a, b []string) int {
-	for i := range a {
-		if a[i] != b[i] {
-			return i
-		}
-	}
-	return -1
-}
-
-// vShrink removes ops (never the first, `begin`) while pred keeps failing.
-func vShrink(prog []string, fails func([]string) bool) []string {
-	cur := append([]string(nil), prog...)
-	for changed := true; changed; {
-		changed = false
-		for i := len(cur) - 1; i >= 1; i-- {
-			cand := append(append([]string(nil), cur[:i]...), cur[i+1:]...)
-			if fails(cand) {
-				cur = cand
-				changed = true
-			}
-		}
-	}
-	return cur
-}
